@@ -20,7 +20,7 @@ DOT = {".", "..", "%2E", "%2e%2E", ".%2E"}
 
 REQUOTE_ENTRIES = ["ctor-emptyhost-port", "ctor-emptyhost-user", "ctor", "ctor-noauth", "join", "join-rooted", "ctor-noauth-rootless", "join-noauth-base", "join-empty-base", "join-trailing-base", "join-root-base", "ctor-userinfo-port"]
 QUOTE_ENTRIES = ["build", "with_path", "with_path-noslash", "div", "div-trailing", "div-empty", "joinpath-splits", "build-noauth",
-                 "div-noauth", "with_path-noauth", "ctor-encoded", "joinpath-encoded", "with_path-encoded"]
+                 "div-noauth", "div-scheme-noauth", "div-scheme-rootless", "with_path-noauth", "ctor-encoded", "joinpath-encoded", "with_path-encoded"]
 
 
 def dec(p):
@@ -69,12 +69,13 @@ def check_path(ctx, backend, entry, segs, enumerated=False):
             results.append((URL("/x/y").with_path("/" + rel), "/" + rel))
         elif entry == "with_path-encoded":
             results.append((URL("http://h/x").with_path("/" + rel, encoded=True), "/" + rel))
-        elif entry in ("div", "div-trailing", "div-empty", "div-noauth"):
+        elif entry in ("div", "div-trailing", "div-empty", "div-noauth", "div-scheme-noauth", "div-scheme-rootless"):
             if rel.startswith("/"):
                 return  # appending a path that starts with a slash is rejected by design
-            base = {"div": "http://h/x/y", "div-trailing": "http://h/x/", "div-empty": "http://h", "div-noauth": "/x/y"}[entry]
-            merged = {"div": "/x/y/", "div-trailing": "/x/", "div-empty": "/", "div-noauth": "/x/y/"}[entry] + rel
-            exp = merged if entry == "div-noauth" else (ref.remove_dot_segments(merged) or "/")
+            base = {"div": "http://h/x/y", "div-trailing": "http://h/x/", "div-empty": "http://h", "div-noauth": "/x/y", "div-scheme-noauth": "file:///x/y", "div-scheme-rootless": "urn:x/y"}[entry]
+            merged = {"div": "/x/y/", "div-trailing": "/x/", "div-empty": "/", "div-noauth": "/x/y/", "div-scheme-noauth": "/x/y/", "div-scheme-rootless": "x/y/"}[entry] + rel
+            # (a scheme alone is not an authority: file:///x, urn:x keep their dots)
+            exp = merged if entry in ("div-noauth", "div-scheme-noauth", "div-scheme-rootless") else (ref.remove_dot_segments(merged) or "/")
             results.append((URL(base) / rel, exp))
         elif entry in ("joinpath-splits", "joinpath-encoded"):
             if rel.startswith("/"):
